@@ -8,6 +8,7 @@ import (
 	"reflect"
 	"strings"
 	"time"
+	"unicode"
 
 	mpc "github.com/markkurossi/mpc"
 	"github.com/markkurossi/mpc/circuit"
@@ -33,6 +34,10 @@ func (t TDesc) String() string {
 		return fmt.Sprintf("%s%d", t.Kind, t.Bits)
 	case "array":
 		return fmt.Sprintf("[%d]%s%d", t.N, t.ElKind, t.Bits)
+	case "string":
+		return fmt.Sprintf("string(%d)", t.N)
+	case "strings":
+		return fmt.Sprintf("[%d]string(%d)", t.N, t.Bits/8)
 	default:
 		return fmt.Sprintf("[]%s%d(n=%d)", t.ElKind, t.Bits, t.N)
 	}
@@ -44,6 +49,8 @@ func (t TDesc) total() int {
 		return 1
 	case "int", "uint":
 		return t.Bits
+	case "string":
+		return 8 * t.N
 	}
 	return t.N * t.Bits
 }
@@ -64,6 +71,16 @@ func (t TDesc) info() types.Info {
 	switch t.Kind {
 	case "bool", "int", "uint":
 		return scalarInfo(t.Kind, t.Bits)
+	}
+	if t.Kind == "string" {
+		// N bytes; Bits is 8
+		return types.Info{Type: types.TString, IsConcrete: true, Bits: types.Size(8 * t.N), MinBits: types.Size(8 * t.N)}
+	}
+	if t.Kind == "strings" {
+		// N strings of Bits/8 bytes each
+		el := types.Info{Type: types.TString, IsConcrete: true, Bits: types.Size(t.Bits), MinBits: types.Size(t.Bits)}
+		return types.Info{Type: types.TArray, IsConcrete: true, Bits: types.Size(t.N * t.Bits), MinBits: types.Size(t.N * t.Bits),
+			ElementType: &el, ArraySize: types.Size(t.N)}
 	}
 	el := scalarInfo(t.ElKind, t.Bits)
 	tt := types.TArray
@@ -105,6 +122,13 @@ func refpack(m Member) []bool {
 		v := valpha.Wrap(bi(m.Vals[0]), w)
 		for i := 0; i < w; i++ {
 			bits[i] = v.Bit(i) == 1
+		}
+	case "string", "strings":
+		for e, s := range m.Vals {
+			v := bi(s)
+			for i := 0; i < 8; i++ {
+				bits[e*8+i] = v.Bit(i) == 1
+			}
 		}
 	default:
 		for e, s := range m.Vals {
@@ -460,9 +484,31 @@ func expectResult(m Member) interface{} {
 			return s
 		}
 	}
+	// a string result: its bytes in order, printable runes as they are, the others as \uXXXX
+	render := func(bs []string) string {
+		var str string
+		for _, b := range bs {
+			r := rune(bi(b).Uint64())
+			if unicode.IsPrint(r) {
+				str += string(r)
+			} else {
+				str += fmt.Sprintf("\\u%04x", r)
+			}
+		}
+		return str
+	}
 	switch m.T.Kind {
 	case "bool", "int", "uint":
 		return scalar(m.T.Kind, m.T.total(), valpha.Wrap(bi(m.Vals[0]), m.T.total()))
+	case "string":
+		return render(m.Vals)
+	case "strings":
+		var el []interface{}
+		per := m.T.Bits / 8
+		for i := 0; i < m.T.N; i++ {
+			el = append(el, render(m.Vals[i*per:(i+1)*per]))
+		}
+		return el
 	}
 	var el []interface{}
 	for i := 0; i < m.T.N; i++ {
@@ -518,6 +564,10 @@ func runResult(ctx *runner.Ctx, k cs) {
 		}
 		if bits[len(bits)-1] && m.T.Kind == "int" {
 			site += "-neg"
+		}
+	} else if m.T.Kind == "string" || m.T.Kind == "strings" {
+		if len(m.Vals) > 0 && m.Vals[len(m.Vals)-1] == "0" {
+			site += "-trailing-nul"
 		}
 	} else if m.T.Kind != "bool" {
 		site += "-of-" + m.T.ElKind
@@ -642,6 +692,53 @@ func work(ctx *runner.Ctx) {
 					}
 				}
 			}
+		}
+	}
+	// string results: every string of <= 3 bytes over a byte alphabet with NUL, printable, control and high bytes
+	// (quick: <= 2 bytes + a stride), strings of 4 and 9 bytes with a NUL at every position, arrays of strings
+	balpha := []string{"0", "97", "32", "10", "127", "128", "255", "90"}
+	var strs [][]string
+	var recS func(cur []string, n int)
+	recS = func(cur []string, n int) {
+		if len(cur) == n {
+			strs = append(strs, append([]string(nil), cur...))
+			return
+		}
+		for _, b := range balpha {
+			recS(append(cur, b), n)
+		}
+	}
+	for n := 0; n <= 3; n++ {
+		recS(nil, n)
+	}
+	for _, n := range []int{4, 9} {
+		for z := -1; z < n; z++ {
+			for z2 := z; z2 < n; z2++ {
+				var v []string
+				for i := 0; i < n; i++ {
+					if i == z || i == z2 {
+						v = append(v, "0")
+					} else {
+						v = append(v, fmt.Sprint(97+i))
+					}
+				}
+				strs = append(strs, v)
+			}
+		}
+		strs = append(strs, strings.Split(strings.Repeat("0 ", n-1)+"0", " "))
+	}
+	for i, v := range strs {
+		if ctx.Quick() && len(v) == 3 && i%3 != 0 {
+			continue
+		}
+		cases = append(cases, cs{Mode: "result", Members: []Member{{T: TDesc{Kind: "string", Bits: 8, N: len(v)}, Vals: v}}})
+	}
+	for _, v := range strs {
+		if len(v) == 4 {
+			cases = append(cases, cs{Mode: "result", Members: []Member{{T: TDesc{Kind: "strings", Bits: 16, N: 2}, Vals: v}}})
+		}
+		if len(v) == 9 {
+			cases = append(cases, cs{Mode: "result", Members: []Member{{T: TDesc{Kind: "strings", Bits: 24, N: 3}, Vals: v}}})
 		}
 	}
 	// compounds of 2 and 3 members: every member value from a small alphabet so that
